@@ -11,7 +11,8 @@ EXPLANATION = (
     "never expands, stops only on Finish, and adds an element iff the handler says so.")
 DECIDED = ["R18a slot scan: monotone range, removed slots skipped, sign by is_valid_edge (DOM)",
            "R18b ElementSearch::search dispatch (TABLE/MUST)",
-           "R15f the ids condition compares signed ids (shared with C15)"]
+           "R15f the ids condition compares signed ids (shared with C15)",
+           "R08g every removal releases its slot through free_index (shared with C08)"]
 UNDECIDED = ["completeness over histories (that every existing element occupies a slot below capacity)"]
 
 G = "agdb::graph::GraphImpl::"
@@ -139,4 +140,7 @@ def run(ctx):
     # node +n from the edge -n that may occupy the same slot later (R15f)
     from rules import C15
     C15.ids_condition_rule(ctx)
+    # ids of re-created / scanned elements depend on the free-list discipline of the graph (R08g, shared with C08)
+    from rules import C08
+    C08.slot_release_rule(ctx)
     return 0
